@@ -31,7 +31,7 @@ def supported(f, kind):
 
 class C17(Prop):
     id = 'C17'
-    rule_added = 'Offline objects are evaluated again on a shorter (down to one sample) and on a longer trace. Dense online feeds also staggered (variables start at different samples) and with an idle poll. 20% of the dense online cases feed the inputs as (nested) fields of one object-typed variable.'
+    rule_added = '2%: 250-450 supplied variables that the formula does not use. Offline objects are evaluated again on a shorter (down to one sample) and on a longer trace. Dense online feeds also staggered (variables start at different samples) and with an idle poll. 20% of the dense online cases feed the inputs as (nested) fields of one object-typed variable.'
     rule = ('random formulas over the whole operator alphabet x the 6 monitor configurations {discrete offline, '
             'discrete online, discrete online after pastify, dense offline, dense online, dense online after '
             'pastify} x degenerate but well-formed data shapes (one-sample traces, a declared variable the formula '
@@ -74,6 +74,8 @@ class C17(Prop):
         names = lang.variables(f) or [c.vars[0]]
         n = rng.choice([1, 1, 1, 2, 3, 5, 12])
         shape = rng.choice(['plain', 'unused-declared', 'undeclared-supplied', 'permuted', 'plain'])
+        if rng.random() < 0.02:
+            shape = 'many-surplus'         # hundreds of supplied variables that the formula does not use
         extra = 'u_extra'
         data = lang.gen_trace(rng, names + [extra], n + 4)
         # offline: the same object is evaluated again on traces of other lengths (shorter, down to one sample, and longer)
@@ -115,6 +117,15 @@ class C17(Prop):
             supplied.append('u_extra')
         elif shape == 'undeclared-supplied':
             supplied.append('u_extra')
+        surplus = []
+        if shape == 'many-surplus':
+            k = 250 + int(case.get('perm', 0) * 200)             # 250..450 further variables, a few of them declared
+            surplus = ['u%03d' % i for i in range(k)]
+            data = dict(data)
+            for i, nm in enumerate(surplus):
+                data[nm] = list(data['u_extra'])
+            declared += surplus[:3]
+            supplied += surplus
         if shape == 'permuted' or case.get('perm', 0) < 0.3:
             supplied = list(reversed(supplied))
         api = {'dt_off': 'dt', 'dt_on': 'dt', 'dt_on_pastified': 'dt', 'ct_off': 'ct', 'ct_on': 'ct',
